@@ -40,6 +40,7 @@ class TempV:
         self.items = []
         self.complete = False
         self.alive = True
+        self.installed = False        # renamed over the target: the open file *is* the target now
 
 
 def fs_of(eng):
@@ -75,9 +76,82 @@ def s_new_in(eng, m, args, fr, dty):
 
 def temp_of(eng, v, fr):
     v = eng.deref(v, fr)
-    if isinstance(v, Struct) and v.ty == 'NamedTempFile':
+    while isinstance(v, Cell):
+        v = v.v
+    if isinstance(v, Struct) and v.ty in ('NamedTempFile', 'File', 'TempPath'):
         return v.fields[0]
+    if isinstance(v, Struct) and v.ty == 'BufWriter':
+        return temp_of(eng, v.fields[0], fr)
     raise Unsupported('not a temp file: %r' % (v,))
+
+
+def file_write(eng, t, data, may_fail=True):
+    """bytes reach the open file t; when t has been renamed over the target they change the target in place"""
+    fs = fs_of(eng)
+    k = nondet(eng, *(['ok'] + (['fail_after_%d' % i for i in range(len(data))] if may_fail else []))) if data else 'ok'
+    n = len(data) if k == 'ok' else int(k.rsplit('_', 1)[1])
+    t.items = t.items + data[:n]
+    t.complete = (k == 'ok') and not getattr(t, 'pending', None)
+    if t.installed:
+        fs.target = ('data', list(t.items), False)      # written in place, a reader can see any prefix
+        fs.log('target_written_in_place_after_rename')
+        if k == 'ok':
+            fs.target = ('data', list(t.items), t.complete)
+            fs.log('target_in_place_write_finished')
+    else:
+        fs.log('temp_written' if k == 'ok' else 'temp_write_failed_after_%d' % n)
+    return k == 'ok'
+
+
+def s_into_parts(eng, m, args, fr, dty):
+    t = temp_of(eng, args[0], fr)
+    return Struct('()', [Struct('File', [t]), Struct('TempPath', [t])])
+
+
+def s_bufwriter_new(eng, m, args, fr, dty):
+    return Struct('BufWriter', [args[0], []])
+
+
+def s_buf_write_all(eng, m, args, fr, dty):
+    w = eng.deref(args[0], fr)
+    while isinstance(w, Cell):
+        w = w.v
+    data = list(items_of(eng, args[1], fr))
+    t = temp_of(eng, w, fr)
+    # std's BufWriter keeps anything smaller than its 8 KiB buffer in memory until flush or drop
+    w.fields[1] = w.fields[1] + data
+    t.pending = True
+    fs_of(eng).log('buffered_in_memory')
+    return Ok(UNIT)
+
+
+def buf_flush(eng, w, fr, may_fail):
+    t = temp_of(eng, w, fr)
+    data, w.fields[1] = w.fields[1], []
+    t.pending = False
+    if not data:
+        return True
+    return file_write(eng, t, data, may_fail)
+
+
+def s_buf_flush(eng, m, args, fr, dty):
+    w = eng.deref(args[0], fr)
+    while isinstance(w, Cell):
+        w = w.v
+    return Ok(UNIT) if buf_flush(eng, w, fr, True) else Err(Opaque('io::Error'))
+
+
+def s_drop_bufwriter(eng, v, fr):
+    buf_flush(eng, v, fr, True)            # errors are ignored by Drop
+
+
+def s_file_write_all(eng, m, args, fr, dty):
+    t = temp_of(eng, args[0], fr)
+    return Ok(UNIT) if file_write(eng, t, list(items_of(eng, args[1], fr))) else Err(Opaque('io::Error'))
+
+
+def s_file_ok(eng, m, args, fr, dty):
+    return Ok(UNIT)
 
 
 def s_temp_path(eng, m, args, fr, dty):
@@ -87,17 +161,12 @@ def s_temp_path(eng, m, args, fr, dty):
 def s_write_all(eng, m, args, fr, dty):
     t = temp_of(eng, args[0], fr)
     data = list(items_of(eng, args[1], fr))
-    fs = fs_of(eng)
     # write_all(&[]) performs no write and cannot fail; otherwise it fails after any proper prefix
-    k = nondet(eng, *(['ok'] + ['fail_after_%d' % i for i in range(len(data))]))
-    if k == 'ok':
-        t.items, t.complete = t.items + data, True
-        fs.log('temp_written')
+    if not data:
+        t.complete = True
+        fs_of(eng).log('temp_written')
         return Ok(UNIT)
-    n = int(k.rsplit('_', 1)[1])
-    t.items, t.complete = t.items + data[:n], False
-    fs.log('temp_write_failed_after_%d' % n)
-    return Err(Opaque('io::Error'))
+    return Ok(UNIT) if file_write(eng, t, data) else Err(Opaque('io::Error'))
 
 
 def same_dir(t, path_items_or_pathv):
@@ -111,12 +180,18 @@ def s_persist(eng, m, args, fr, dty):
     fs = fs_of(eng)
     if nondet(eng, 'ok', 'err') == 'err':
         fs.log('rename_failed')
+        v = eng.deref(args[0], fr)
+        while isinstance(v, Cell):
+            v = v.v
+        if isinstance(v, Struct) and v.ty == 'TempPath':
+            return Err(Struct('PathPersistError', [Opaque('io::Error'), Struct('TempPath', [t])]))
         return Err(Struct('PersistError', [Opaque('io::Error'), Struct('NamedTempFile', [t])]))
     if not same_dir(t, args[1]):
         fs.target = ('clobbered',)          # cross-directory persist is not an atomic rename
     else:
         fs.target = ('data', list(t.items), t.complete)
     t.alive = False
+    t.installed = True
     fs.log('renamed_over_target')
     return Ok(Opaque('File'))
 
@@ -146,6 +221,9 @@ def s_drop_temp(eng, v, fr):
 
 
 _models.DROP_MODELS['NamedTempFile'] = s_drop_temp
+_models.DROP_MODELS['TempPath'] = s_drop_temp
+_models.DROP_MODELS['PathPersistError'] = lambda eng, v, fr: s_drop_temp(eng, v.fields[1], fr)
+_models.DROP_MODELS['BufWriter'] = s_drop_bufwriter
 _models.DROP_MODELS['PersistError'] = lambda eng, v, fr: s_drop_temp(eng, v.fields[1], fr)
 
 STUBS = [
@@ -157,6 +235,13 @@ STUBS = [
     (re.compile(r'^(tempfile::)?NamedTempFile::path$'), s_temp_path),
     (re.compile(r'^<(tempfile::)?NamedTempFile as (std::io::)?Write>::write_all$'), s_write_all),
     (re.compile(r'^(tempfile::)?NamedTempFile::persist::<.*>$'), s_persist),
+    (re.compile(r'^(tempfile::)?TempPath::persist::<.*>$'), s_persist),
+    (re.compile(r'^(tempfile::)?NamedTempFile::into_parts$'), s_into_parts),
+    (re.compile(r'^(std::io::)?BufWriter::<.*>::new$'), s_bufwriter_new),
+    (re.compile(r'^<(std::io::)?BufWriter<.*> as (std::io::)?Write>::write_all$'), s_buf_write_all),
+    (re.compile(r'^<(std::io::)?BufWriter<.*> as (std::io::)?Write>::flush$'), s_buf_flush),
+    (re.compile(r'^<(std::fs::)?File as (std::io::)?Write>::write_all$'), s_file_write_all),
+    (re.compile(r'^<(std::fs::)?File as (std::io::)?Write>::flush$|^(std::fs::)?File::sync_(all|data)$|^<(tempfile::)?NamedTempFile as (std::io::)?Write>::flush$'), s_file_ok),
     (re.compile(r'^(std::)?fs::read_to_string::<.*>$'), s_read_to_string),
     (re.compile(r'^(std::)?fs::(write|copy|rename|remove_file|File::create|OpenOptions::open)(::<.*>)?$|^(std::fs::)?File::create::<.*>$'), s_direct_write),
 ]
@@ -311,6 +396,9 @@ def strace_run(binpath, case, inputs):
                 problems.append('target opened for writing: ' + l.strip()[:160])
             if re.search(r'\b(truncate)\(', l) and target in l:
                 problems.append('target truncated: ' + l.strip()[:160])
+            mw = re.search(r'\bwrite\((\d+),', l)
+            if mw and int(mw.group(1)) >= 3 and renamed_from is not None:
+                problems.append('a file is written after it was renamed over the target (the target is incomplete in between): ' + l.strip()[:120])
             m = re.search(r'rename(?:at2?|)\((?:AT_FDCWD, )?"([^"]+)", (?:AT_FDCWD, )?"([^"]+)"', l)
             if m and m.group(2) == target and '= 0' in l.rsplit(')', 1)[-1]:
                 renamed_from = m.group(1)
